@@ -44,6 +44,10 @@ def step (d : Dir) (line : String) : Dir × String :=
     | _, _ => (d, "bad-op")
   | ["remode"] => let d' := setEstMode (setEstMode d .links) .block; (d', answer "ok" d')
   | ["stat"] => (d, answer "ok" d)
+  -- DynamicDirectory ops are monitor-only on the Go side (constant answer, no model state)
+  | "dynnew" :: _ => (d, "ok")
+  | "dynadd" :: _ => (d, "ok")
+  | "dynrm" :: _ => (d, "ok")
   | _ => (d, "bad-op")
 
 partial def loop (h : IO.FS.Stream) (out : IO.FS.Stream) (d : Dir) : IO Unit := do
